@@ -78,6 +78,8 @@ def run_selftest(pid, repo):
     import importlib.util
     spec = importlib.util.spec_from_file_location('mutest', os.path.join(VERIF, 'tools', 'mutest.py'))
     mutest = importlib.util.module_from_spec(spec)
+    # (registered under its name: the worker processes of run_parallel receive `mutest.run` by reference)
+    sys.modules['mutest'] = mutest
     spec.loader.exec_module(mutest)
     mutest.REPO = repo
     ms = mutest.load(pid, None)
@@ -128,7 +130,12 @@ def thorough(ctx, pid, repo):
     extra = {}
     extra.update(run_witnesses(ctx, pid, repo))
     if os.environ.get('VERIF_NO_SELFTEST') != '1':
-        st = run_selftest(pid, repo)
+        try:
+            st = run_selftest(pid, repo)
+        except Exception as e:      # the self-test is about the checker, never a verdict about /repo
+            print('SELFTEST-WARNING: %s: the self-test could not be run (%s: %s)' % (pid, type(e).__name__, e))
+            st = {'selftest': {'mutants': 0, 'detected_or_silent_as_expected': 0, 'not_applicable_to_this_tree': 0,
+                               'failed': [], 'seeded_replays': [], 'error': '%s: %s' % (type(e).__name__, e)}}
         extra.update(st)
         bad = st['selftest']['failed'] + [s for s in st['selftest']['seeded_replays'] if s['status'] == 'MISSED']
         for b in bad:
